@@ -53,12 +53,15 @@ def corrupt(ev, field):
         ev[field] = 'Ok' if v != 'Ok' else 'Panic: selftest'
     elif isinstance(v, list) and v:
         if isinstance(v[0], list):
-            w = copy.deepcopy(v); w[0][0] = w[0][0] + 1 if isinstance(w[0][0], int) else w[0][0]; ev[field] = w
+            # probabilities as 22/21/21 limbs: +64 in the top limb = 2^-16 (above every tolerance used); other nested lists: +1
+            w = copy.deepcopy(v); w[0][0] = w[0][0] + (64 if field in ('P',) else 1) if isinstance(w[0][0], int) else w[0][0]; ev[field] = w
         elif isinstance(v[0], int):
             # little-endian base-2^14 limbs (T, cnt, last, p0, xq): corrupt the most significant limb; otherwise the first entry
             w = list(v)
             if field in ('T', 'cnt', 'last', 'p0', 'xq', 'lo', 'hi', 'ap', 'am', 'outq'):
                 w[-1] += 1
+            elif field in ('oneword', 'tail') and len(w) == 3:
+                w[0] += 64
             else:
                 w[0] += 1
             ev[field] = w
